@@ -24,7 +24,7 @@ SHARD_TIMEOUT = {'quick': 600, 'thorough': 3600}
 SIMS = [('JACCARD', True), ('COSINE', True), ('DICE', True), ('OVERLAP_COEFFICIENT', True),
         ('OVERLAP', True), ('user_bound', True), ('user_len_diff', True), ('EDIT_DISTANCE', False),
         ('user_len_diff', False), ('user_neg', True), ('user_neg', False), ('user_signed', True),
-        ('user_nw', False)]
+        ('user_nw', False), ('user_nan', True), ('user_nan', False), ('user_jitter', True)]
 OPS6 = ['>=', '>', '<=', '<', '=', '!=']
 
 ANCHORS = {
